@@ -57,6 +57,12 @@ def run(tier):
                  else zoo.link('K', 1000 + pos * 37, 'natural', n=9000, goff=100000 + pos, q=0.6, ch=2) for pos, kind in enumerate(seq)]
         cases.append('s 0 ' + ' '.join(spec(p, m) for p, m in links))
         meta.append((seq, ['goff-bigpages'] * len(seq)))
+    # adjacent links of the SAME format (channels, rate, block sizes) but different set-up headers (encoded at different qualities): the decoder must be
+    # rebuilt from each link's own codebooks
+    for qs in ((0.1, 0.9), (0.9, 0.1), (0.1, 0.5, 0.9), (0.5, 0.5, 0.0)):
+        links = [zoo.link('K', 1300 + pos * 11, 'natural' if pos % 2 else '3', q=q) for pos, q in enumerate(qs)]
+        cases.append('s 0 ' + ' '.join(spec(p, m) for p, m in links))
+        meta.append((['K'] * len(qs), ['q%s' % q for q in qs]))
     # serial numbers >= 2^31 in every position of short chains
     for seq in itertools.product(['A', 'B', 'D', 'Z'], repeat=3):
         links = [mklink(kind, pos, 'natural' if kind != 'A' else '3', hiserial=True) for pos, kind in enumerate(seq)]
